@@ -10,7 +10,6 @@ Section DBSpecP.
 Variable E : env.
 Variable C : cenv.
 Variable norm : point -> point.
-Variable inplace : bool.
 Hypothesis norm_wf : forall p, wf_point p -> wf_point (norm p).
 
 (* ---- removal ---------------------------------------------------------------------------- *)
@@ -73,14 +72,14 @@ Qed.
 
 (* ---- update ----------------------------------------------------------------------------- *)
 Theorem db_update_spec s q u m : Inv s -> wf_query E q -> index_safe q -> upd_given u = true ->
-  let r := db_update E C norm inplace s q (Some u) m in
+  let r := db_update E C norm s q (Some u) m in
   match spec_update_rows C norm (hit E q m) u (st_rows s) with
   | Some (l, n) => snd r = ONat n /\ st_rows (fst r) = l /\ Inv (fst r)
-  | None => snd r = ORaise /\ (inplace = false -> fst r = read_prelude s)
+  | None => snd r = ORaise /\ fst r = read_prelude s
   end.
 Proof.
   intros HI Hq Hs Hg. unfold db_update.
-  pose proof (update_helper_spec E C norm inplace norm_wf (read_prelude s) false q u m
+  pose proof (update_helper_spec E C norm norm_wf (read_prelude s) false q u m
                 (read_prelude_Inv Rep_build s HI) (conj Hq Hs) Hg) as H.
   cbn zeta in H. rewrite read_prelude_rows in H.
   change (upd_sel E false q m) with (hit E q m) in H.
@@ -88,14 +87,14 @@ Proof.
 Qed.
 
 Theorem db_update_all_spec s u : Inv s -> upd_given u = true ->
-  let r := db_update_all E C norm inplace s (Some u) in
+  let r := db_update_all E C norm s (Some u) in
   match spec_update_rows C norm (fun _ => true) u (st_rows s) with
   | Some (l, n) => snd r = ONat n /\ st_rows (fst r) = l /\ Inv (fst r)
-  | None => snd r = ORaise /\ (inplace = false -> fst r = read_prelude s)
+  | None => snd r = ORaise /\ fst r = read_prelude s
   end.
 Proof.
   intros HI Hg. unfold db_update_all.
-  pose proof (update_helper_spec E C norm inplace norm_wf (read_prelude s) true (QNoop ATags) u None
+  pose proof (update_helper_spec E C norm norm_wf (read_prelude s) true (QNoop ATags) u None
                 (read_prelude_Inv Rep_build s HI) (wf_q_noop E ATags) Hg) as H.
   cbn zeta in H. rewrite read_prelude_rows in H.
   change (upd_sel E true (QNoop ATags) None) with (fun _ : point => true) in H.
@@ -137,9 +136,9 @@ Qed.
 Lemma read_rows s (f : state -> state * out) : fst (f s) = read_prelude s -> st_rows (fst (f s)) = st_rows s.
 Proof. intros H. rewrite H. apply read_prelude_rows. Qed.
 
-Theorem raise_leaves_rows s o : Inv s -> wf_op E norm o -> inplace = false ->
-  snd (step E C norm inplace s o) = ORaise ->
-  let s' := fst (step E C norm inplace s o) in
+Theorem raise_leaves_rows s o : Inv s -> wf_op E norm o ->
+  snd (step E C norm s o) = ORaise ->
+  let s' := fst (step E C norm s o) in
   Inv s' /\
   match o with
   | Insert ps m => st_rows s' = st_rows s ++ map (rename m) (prefix_points ps)
@@ -147,17 +146,17 @@ Theorem raise_leaves_rows s o : Inv s -> wf_op E norm o -> inplace = false ->
   | _ => st_rows s' = st_rows s
   end.
 Proof.
-  intros HI Hw Hf Hr. cbn zeta.
-  split; [apply (step_Inv E C norm inplace norm_wf); auto; left; exact Hf|].
+  intros HI Hw Hr. cbn zeta.
+  split; [apply (step_Inv E C norm norm_wf); auto|].
   assert (HP : Inv (read_prelude s)) by (apply (read_prelude_Inv Rep_build); exact HI).
-  assert (Hupd : forall q u m, wf_q E q -> snd (db_update E C norm inplace s q u m) = ORaise ->
-            st_rows (fst (db_update E C norm inplace s q u m)) = st_rows s).
+  assert (Hupd : forall q u m, wf_q E q -> snd (db_update E C norm s q u m) = ORaise ->
+            st_rows (fst (db_update E C norm s q u m)) = st_rows s).
   { intros q u m [Hq Hs] Hx. destruct u as [u|]; [|cbn; apply read_prelude_rows].
     destruct (upd_given u) eqn:Eg.
     - pose proof (db_update_spec s q u m HI Hq Hs Eg) as H. cbn zeta in H.
       destruct (spec_update_rows C norm (hit E q m) u (st_rows s)) as [[l n]|].
       + destruct H as [H _]. congruence.
-      + destruct H as [_ H]. rewrite (H Hf). apply read_prelude_rows.
+      + destruct H as [_ H]. rewrite H. apply read_prelude_rows.
     - unfold db_update, update_helper. rewrite Eg. cbn. apply read_prelude_rows. }
   destruct o as [ps m|q m|name| |q u m|u|q m srt|q m|q m|q m|ks q m|srt| | | |m|ks m|m|k m|m| |auto| |name h];
     cbn [step wf_op] in *; try discriminate;
@@ -168,14 +167,14 @@ Proof.
     pose proof (remove_helper_spec E (read_prelude s) _ (Some name) HP (proj1 (wf_q_drop E name)) (proj2 (wf_q_drop E name))) as H.
     destruct H as [H _]. congruence.
   - now apply Hupd.
-  - unfold db_update_all in *. change (update_helper E C norm inplace (read_prelude s) true (QNoop ATags) u None)
-      with (update_helper E C norm inplace (read_prelude s) true (QNoop ATags) u None) in *.
+  - unfold db_update_all in *. change (update_helper E C norm (read_prelude s) true (QNoop ATags) u None)
+      with (update_helper E C norm (read_prelude s) true (QNoop ATags) u None) in *.
     destruct u as [u|]; [|cbn; apply read_prelude_rows].
     destruct (upd_given u) eqn:Eg.
     + pose proof (db_update_all_spec s u HI Eg) as H. cbn zeta in H. unfold db_update_all in H.
       destruct (spec_update_rows C norm (fun _ => true) u (st_rows s)) as [[l n]|].
       * destruct H as [H _]. congruence.
-      * destruct H as [_ H]. rewrite (H Hf). apply read_prelude_rows.
+      * destruct H as [_ H]. rewrite H. apply read_prelude_rows.
     + unfold update_helper. rewrite Eg. cbn. apply read_prelude_rows.
   - rewrite db_search_fst. apply read_prelude_rows.
   - rewrite db_count_fst. apply read_prelude_rows.
@@ -227,7 +226,7 @@ Qed.
 
 (* remove through a handle leaves every other measurement's points as they were, in order *)
 Theorem handle_remove_confined s q name : Inv s -> wf_query E q -> index_safe q -> name <> [] ->
-  filter (fun p => negb (str_eqb (p_meas p) name)) (st_rows (fst (handle_step E C norm inplace s name (HRemove q))))
+  filter (fun p => negb (str_eqb (p_meas p) name)) (st_rows (fst (handle_step E C norm s name (HRemove q))))
   = filter (fun p => negb (str_eqb (p_meas p) name)) (st_rows s).
 Proof.
   intros HI Hq Hs Hn. cbn [handle_step]. apply remove_keeps_others; auto.
@@ -245,7 +244,7 @@ Qed.
 
 (* insert through a handle stores the points under the handle's name *)
 Theorem handle_insert_named s ps name : Inv s -> wf_insert norm ps (Some name) -> name <> [] ->
-  let r := handle_step E C norm inplace s name (HInsert ps) in
+  let r := handle_step E C norm s name (HInsert ps) in
   st_rows (fst r) = st_rows s ++ map (fun p => set_meas p name) (prefix_points ps).
 Proof.
   intros HI Hw Hn. cbn [handle_step]. destruct (db_insert_spec s ps (Some name) HI Hw) as [H _].
